@@ -90,7 +90,8 @@ class ScriptedEngine(object):
         if position.ply == 0:
             self.seq += 1
             self.t_start = time.time()
-            _marker(self.dir, "took-%d-%d" % (self.worker, self.seq))
+            if self.seq <= 64:  # (nobody reads these beyond the first games; thousands of files slow the monitor)
+                _marker(self.dir, "took-%d-%d" % (self.worker, self.seq))
             if self.spec.get("killplay", {}).get(str(self.worker)) == self.seq:
                 _marker(self.dir, "window-%d" % self.worker)
                 time.sleep(120)
